@@ -19,13 +19,29 @@ import (
 	"github.com/Comcast/rulio/core"
 	"pgregory.net/rapid"
 
+	"verif/harness/refmatch"
 	"verif/harness/vlib"
 )
 
 type c07Case struct {
 	Kind   string `json:"kind"`
 	Offset int64  `json:"offset"` // ns into the second at which the history starts
+	Slow   int64  `json:"slow"`   // virtual duration of every storage write (ns)
 	Ops    []op   `json:"ops"`
+}
+
+// slowStore makes every storage write take (virtual) time, so that the clock
+// moves between the steps of one operation.
+type slowStore struct {
+	core.Storage
+	delay time.Duration
+}
+
+func (s *slowStore) Add(ctx *core.Context, loc string, data *core.Pair) error {
+	if s.delay > 0 {
+		time.Sleep(s.delay)
+	}
+	return s.Storage.Add(ctx, loc, data)
 }
 
 var c07Items = []string{"i1", "i2", "r1"}
@@ -37,6 +53,7 @@ func genC07(t *rapid.T) c07Case {
 	var c c07Case
 	c.Kind = rapid.SampledFrom([]string{"indexed", "linear"}).Draw(t, "kind")
 	c.Offset = rapid.SampledFrom([]int64{0, 0, 1, 300e6, 999999999}).Draw(t, "offset")
+	c.Slow = rapid.SampledFrom([]int64{0, 0, 0, 600e6, 1e9}).Draw(t, "slow")
 	n := rapid.IntRange(2, 14).Draw(t, "nops")
 	usedFar := false
 	for i := 0; i < n; i++ {
@@ -95,10 +112,17 @@ func runC07(c c07Case) *vlib.Outcome {
 	now := time.Now()
 	time.Sleep(time.Duration(int64(time.Second) - int64(now.Nanosecond()) + c.Offset%int64(time.Second)))
 
-	w := newWorld(c.Kind, nil, o)
+	var store core.Storage
+	if c.Slow > 0 {
+		mem, _ := core.NewMemStorage(newCtx())
+		store = &slowStore{mem, time.Duration(c.Slow)}
+		o.Label("slow-storage")
+	}
+	w := newWorld(c.Kind, store, o)
 	w.open("L")
 	ml := w.model["L"]
 	universe := append([]string{"d1"}, c07Items...)
+	seenExp := map[string]float64{} // first observed `expires` per item
 	nearBoundary, reloadBeforeE := false, false
 
 	// expiredUnobserved: items past E that the model still holds
@@ -106,7 +130,7 @@ func runC07(c c07Case) *vlib.Outcome {
 		set := map[string]bool{}
 		t := nowSecs()
 		for id, it := range ml.Items {
-			if it.live(t) == 0 {
+			if it.live(t) != 1 {
 				for _, d := range ml.dependents(id) {
 					set[d] = true
 				}
@@ -190,22 +214,27 @@ func runC07(c c07Case) *vlib.Outcome {
 			enc, _ := x.Doc["enc"].(string)
 			d, _ := x.Doc["d"].(float64)
 			floorNow := t.Unix()
-			var E int64
 			doc := M{"tag": x.Id}
+			expiryAt := func(at time.Time) int64 {
+				switch enc {
+				case "expnum", "exprfc":
+					return floorNow + int64(d)
+				case "ttlnum":
+					return at.Unix() + int64(d)
+				case "ttlstr":
+					return at.Add(time.Duration(d) * time.Millisecond).Unix()
+				}
+				return 0
+			}
 			switch enc {
 			case "expnum":
-				E = floorNow + int64(d)
-				doc["expires"] = float64(E)
+				doc["expires"] = float64(expiryAt(t))
 			case "exprfc":
-				E = floorNow + int64(d)
-				doc["expires"] = time.Unix(E, 0).UTC().Format(time.RFC3339)
+				doc["expires"] = time.Unix(expiryAt(t), 0).UTC().Format(time.RFC3339)
 			case "ttlnum":
-				E = floorNow + int64(d)
 				doc["ttl"] = d
 			case "ttlstr":
-				dur := time.Duration(d) * time.Millisecond
-				E = t.Add(dur).Unix()
-				doc["ttl"] = dur.String()
+				doc["ttl"] = (time.Duration(d) * time.Millisecond).String()
 			}
 			var err error
 			isRule := x.Id == "r1"
@@ -220,36 +249,42 @@ func runC07(c c07Case) *vlib.Outcome {
 			} else {
 				_, err = w.locs["L"].AddFact(newCtx(), x.Id, core.Map(doc))
 			}
-			expired := enc != "none" && E <= floorNow
-			if expired {
+			// the write took [t, t1] (storage may be slow): the instant
+			// "now" lies somewhere in between
+			t1 := time.Now()
+			Elo, Ehi := expiryAt(t), expiryAt(t1)
+			surelyExpired := enc != "none" && Ehi <= floorNow
+			surelyLive := enc == "none" || Elo > t1.Unix()
+			switch {
+			case surelyExpired:
 				o.Label("write-already-expired")
 				if err == nil {
-					o.Fail("EXPIRED_WRITE_ACCEPTED", "%s: writing an already-expired item (E=%d, now=%d) was accepted", when, E, floorNow)
+					o.Fail("EXPIRED_WRITE_ACCEPTED", "%s: writing an already-expired item (E=%d, now=%d) was accepted", when, Ehi, floorNow)
 				}
-				// nothing changes: the previous item (if any) stays
-			} else if err != nil {
-				o.Fail("WRITE_REJECTED", "%s: write failed: %v (E=%d, now=%d)", when, err, E, floorNow)
-			} else {
+			case surelyLive && err != nil:
+				o.Fail("WRITE_REJECTED", "%s: write failed: %v (E in [%d,%d], now=%d..%d)", when, err, Elo, Ehi, floorNow, t1.Unix())
+			}
+			if err == nil && !surelyExpired {
 				var it *mItem
 				if isRule {
 					wr := M{"rule": mkRule(M{"a": "x"}, "r1")}
 					if enc != "none" {
-						wr["expires"] = expBand{E, E}
-						wr["rule"].(M)["expires"] = expBand{E, E}
+						wr["expires"] = expBand{Elo, Ehi}
+						wr["rule"].(M)["expires"] = expBand{Elo, Ehi}
 					}
 					it = modelFactItem(wr)
 					it.Tag = "r1"
 				} else {
 					st := M{"tag": x.Id}
 					if enc != "none" {
-						st["expires"] = expBand{E, E}
+						st["expires"] = expBand{Elo, Ehi}
 					}
 					it = modelFactItem(st)
 				}
 				if enc != "none" {
-					it.ExpLo, it.ExpHi = E, E
+					it.ExpLo, it.ExpHi = Elo, Ehi
 				}
-				if old, have := ml.Items[x.Id]; have && old.live(floorNow) == 0 {
+				if old, have := ml.Items[x.Id]; have && old.live(floorNow) != 1 {
 					// overwriting an expired, never observed item:
 					// it (and its dependents) may or may not have
 					// been purged before
@@ -259,6 +294,7 @@ func runC07(c c07Case) *vlib.Outcome {
 				}
 				ml.put(x.Id, it)
 				addedAt[x.Id] = t.UnixNano()
+				delete(seenExp, x.Id)
 			}
 		case "dep":
 			f := M{"tag": "d1", "deleteWith": toA(x.L)}
@@ -273,6 +309,17 @@ func runC07(c c07Case) *vlib.Outcome {
 				}
 			}
 			withMaybe(func() { w.checkGet("L", x.Id, when) })
+			// the expiry instant never moves: not by reads, not by reloads
+			if it, have := ml.Items[x.Id]; have && it.ExpLo != 0 && it.live(nowSecs()) == 1 && ml.specified(x.Id) {
+				if f, err := w.locs["L"].GetFact(newCtx(), x.Id); err == nil {
+					if e, ok := refmatch.Num(f["expires"]); ok {
+						if prev, seen := seenExp[x.Id]; seen && prev != e {
+							o.Fail("EXPIRES_MOVED", "%s: item %q reported expires=%v earlier and reports %v now", when, x.Id, int64(prev), int64(e))
+						}
+						seenExp[x.Id] = e
+					}
+				}
+			}
 			purge([]string{x.Id}, when)
 		case "search":
 			withMaybe(func() { w.checkSearch("L", M{"tag": "?t"}, false, when) })
